@@ -118,3 +118,16 @@ def reachable_functions(repo, roots, max_depth=8):
                     if r[1] in cls.methods:
                         stack.append((cls.methods[r[1]], d + 1))
     return seen
+
+
+def precedes(fn, a, b):
+    """Statement/expression ``a`` is executed before ``b`` on every path reaching ``b`` (CFG dominance) --
+    program order that does not depend on line numbers (inlined statements keep the lines of their origin)."""
+    from .cfg import cfg_of
+    from .facts import cfg_node_of
+    na, nb = cfg_node_of(fn, a), cfg_node_of(fn, b)
+    if na is None or nb is None:
+        return a.lineno < b.lineno
+    if na is nb:
+        return (a.lineno, a.col_offset) < (b.lineno, b.col_offset)
+    return cfg_of(fn).dominates(na, nb)
